@@ -439,8 +439,23 @@ func listSentinel(p *core.Prog, r *core.Result) {
 					continue
 				}
 				nt, ok := pt.Elem().(*types.Named)
-				if !ok || core.TypeName(nt) != "symbolList" {
+				if !ok {
 					continue
+				}
+				if core.TypeName(nt) != "symbolList" {
+					// a whole value that holds the list by value (the cache itself) is overwritten: unless it is the zero
+					// value (cache disabled, the list is never touched) the list inside is a fresh, unlinked one
+					holds := false
+					if stt, isS := nt.Underlying().(*types.Struct); isS {
+						for i := 0; i < stt.NumFields(); i++ {
+							if fn, isN := stt.Field(i).Type().(*types.Named); isN && core.TypeName(fn) == "symbolList" {
+								holds = true
+							}
+						}
+					}
+					if _, isZero := st.Val.(*ssa.Const); !holds || isZero {
+						continue
+					}
 				}
 				n++
 				linked := map[string]bool{}
